@@ -6263,7 +6263,7 @@ def derivative(func, var, seen=None):
     'derivative'
 
     assert isinstance(var, DerivativeTargetBase), 'invalid derivative target {!r}'.format(var)
-    if var.dtype in (bool, int) or var not in func.arguments:
+    if var.dtype in (bool, int) or func.dtype in (bool, int) or var not in func.arguments:
         return Zeros(func.shape + var.shape, dtype=func.dtype)
     if seen is None:
         seen = {}
